@@ -198,6 +198,8 @@ func newWorld() *world {
 	mk("s3", el.NodeTypeSink, hn.Drop)
 	mk("x", el.NodeTypeSink, hn.Drop)
 	mk("x2", el.NodeTypeSink, hn.Drop)
+	// s1's Close complains: a removal that answers true has still removed the pipeline
+	w.objs["s1"].CloseErr = fmt.Errorf("close of s1 fails")
 	for _, id := range []string{"f", "m", "s1", "s2", "s3", "x"} {
 		if err := w.b.RegisterNode(el.NodeID(id), w.objs[id].AsNode()); err != nil {
 			vrt.Fail("fixture: %v", err)
@@ -235,7 +237,10 @@ func (w *world) apply(o op, c *call) {
 	case "rmpipenodes":
 		var ok bool
 		ok, err = w.b.RemovePipelineAndNodes(ctx, el.EventType(o.Type), el.PipelineID(o.ID))
-		c.Ret = fmt.Sprint(ok)
+		c.Ret = fmt.Sprint(ok, err != nil)
+		if ok {
+			err = nil // the removal took place (c.Err means: the call did not take effect)
+		}
 	case "regnode":
 		err = w.b.RegisterNode(el.NodeID(o.ID), w.objs[o.Ver].AsNode())
 	case "rmnode":
